@@ -44,6 +44,35 @@ class LPM:
             raise AnalysisError('undecidable shape: submit loop over `generator` not found (%d loops)' % len(src_loops))
         self.loop = self.loops[0]
         self.cfg = CFG(fn)
+        # the three adapter slots, bound by role (not by name):
+        #   submit    = the callable whose result is put into the queue inside the submit loop
+        #   result    = the callable applied to q.get() in the deliveries
+        #   terminate = the callable that the GeneratorExit handler calls with the queue
+        self.n_submit = self.n_result = self.n_terminate = None
+        for c in A.walk_stmts(self.loop.body):
+            if isinstance(c, ast.Call) and isinstance(c.func, ast.Attribute) and c.func.attr in ('put', 'put_nowait') \
+                    and self.is_q(c.func.value) and c.args:
+                a0 = flow.copy_prop(c.args[0], fn)
+                if isinstance(a0, ast.Call) and isinstance(a0.func, ast.Name):
+                    self.n_submit = a0.func.id
+        for y in A.yields_in(fn):
+            v = getattr(y, 'value', None)
+            if isinstance(v, ast.Call) and isinstance(v.func, ast.Name) and v.args and isinstance(v.args[0], ast.Call) \
+                    and isinstance(v.args[0].func, ast.Attribute) and self.is_q(v.args[0].func.value):
+                self.n_result = v.func.id
+        for h in [h for t in A.walk_stmts(self.with_.body) if isinstance(t, ast.Try) for h in t.handlers]:
+            if h.type is not None and A.src(h.type) == 'GeneratorExit':
+                for c in A.walk_stmts(h.body):
+                    if isinstance(c, ast.Call) and isinstance(c.func, ast.Name) and any(self.is_q(a) for a in c.args):
+                        self.n_terminate = c.func.id
+        if self.n_submit is None:
+            # a submit whose future is first bound to a local (seeded shape): the only nested-def call with the executor
+            for c in A.walk_stmts(self.loop.body):
+                if isinstance(c, ast.Call) and isinstance(c.func, ast.Name) and c.args and A.is_name(c.args[0], self.executor or '\0'):
+                    self.n_submit = c.func.id
+        self.n_submit = self.n_submit or 'submit'
+        self.n_result = self.n_result or 'result'
+        self.n_terminate = self.n_terminate or 'terminate'
         # backend branches
         self.branches = self._branches()
 
@@ -87,10 +116,12 @@ class LPM:
         return out
 
     def adapters(self, stmts):
+        """nested defs of one backend branch by role: {'submit': def, 'result': def, 'terminate': def}"""
+        role = {self.n_submit: 'submit', self.n_result: 'result', self.n_terminate: 'terminate'}
         d = {}
         for s in stmts:
             if isinstance(s, A.FUNC_TYPES):
-                d[s.name] = s
+                d[role.get(s.name, s.name)] = s
         return d
 
 
